@@ -9,7 +9,7 @@ import heapq
 import itertools
 
 from .actors import (
-    Item, Unorderable, AwaitableItem, SrcPlan, FnPlan, ALL_FLAVOURS, FN_FLAVOURS, LOGGING_FLAVOURS,
+    Item, Unorderable, AwaitableItem, PairIterable, SrcPlan, FnPlan, ALL_FLAVOURS, FN_FLAVOURS, LOGGING_FLAVOURS,
     ASYNC_FLAVOURS, CONTAINER_FLAVOURS, SYNC_FLAVOURS, _behave, keyof,
 )
 
@@ -235,6 +235,8 @@ class Gen:
             k -= 1
         if self.ch.chance(1, 6):
             return self.fn("uidkey", 0)
+        if self.ch.chance(1, 8):
+            return self.fn("mixnum", self.ch.draw(4))
         return self.fn(("keyval", "div", "neg", "const")[k], self.ch.draw(2))
 
 
@@ -726,7 +728,9 @@ class _GroupBy(ToolBase):
         stale = tuple(g.ch.weighted([4, 2, 2, 1]) for _ in range(4))  # 0 none, k: the group k positions back
         # ... either right away, or only after the first item of the new group has been taken
         late = tuple(g.ch.draw(2) for _ in range(4))
-        return Spec("groupby", [g.src(items)], [key], {"peeks": peeks, "stale": stale, "stale_late": late})
+        # a group that was not read to its end is sometimes closed by its consumer (what islice / any / takewhile do)
+        closes = tuple(g.ch.weighted([3, 1]) for _ in range(4))
+        return Spec("groupby", [g.src(items)], [key], {"peeks": peeks, "stale": stale, "stale_late": late, "closes": closes})
 
     def a(self, L, spec, S, F):
         gb = L.groupby(S[0], F[0]) if F[0] is not None else L.groupby(S[0])
@@ -734,6 +738,7 @@ class _GroupBy(ToolBase):
 
         stale = spec.p["stale"]
         late = spec.p.get("stale_late", (0, 0, 0, 0))
+        closes = spec.p.get("closes", (0, 0, 0, 0))
         stop = ("stale-stop",)
 
         async def driver():
@@ -766,6 +771,8 @@ class _GroupBy(ToolBase):
                             old = None
                         if peek < 3 and taken >= peek:
                             break
+                    if closes[(n - 1) % 4]:
+                        await group.aclose()
             finally:
                 await gb.aclose()
 
@@ -777,6 +784,7 @@ class _GroupBy(ToolBase):
 
         stale = spec.p["stale"]
         late = spec.p.get("stale_late", (0, 0, 0, 0))
+        closes = spec.p.get("closes", (0, 0, 0, 0))
         stop = ("stale-stop",)
 
         def driver():
@@ -970,6 +978,14 @@ class _Dict(AggBase):
             pairs[g.ch.draw(n)] = ([g.item()], g.item())  # unhashable key
         elif pairs and g.cfg.odd_items and g.ch.chance(1, 10):
             pairs[g.ch.draw(n)] = (g.item(), g.item(), g.item())  # not a pair
+        elif pairs and g.cfg.odd_items and g.ch.chance(1, 5):
+            # pairs of other shapes: a list, something that only unpacks (iterable, not indexable), a 2-character
+            # string, a single-element tuple (not a pair either)
+            for _ in range(g.ch.between(1, 2)):
+                pos = g.ch.draw(n)
+                shape = g.ch.draw(4)
+                k, v = g.item(), g.item()
+                pairs[pos] = ([k, v], PairIterable(k, v), "ab", (k,))[shape]
         kwargs = {}
         if g.ch.chance(1, 4):
             kwargs = {"kw%d" % i: g.item() for i in range(g.ch.between(1, 2))}
